@@ -549,7 +549,8 @@ EXPECT = ["C17.call_minus_put_is_forward", "C17.call_spread_is_call_combination_
           "C17.notional_scales_linearly", "C17.knock_in_plus_knock_out_is_vanilla", "C17.barrier_value_independent_of_earlier_paths",
           "C17.identity_and_log_representation_agree", "C17.representation_switch_is_not_sticky", "C17.average_between_path_extremes",
           "C17.default_time_is_first_jump_below_threshold", "C17.nth_to_default_times_nondecreasing_in_n",
-          "C17.default_times_of_a_path_do_not_depend_on_the_paths_valued_before", "C17.product_reads_the_representation_it_was_last_updated_to"]
+          "C17.default_times_of_a_path_do_not_depend_on_the_paths_valued_before", "C17.product_reads_the_representation_it_was_last_updated_to",
+          "C17.rainbow_value_is_weighted_sorted_performance", "C17.valuing_a_product_leaves_the_path_unchanged", "C17.second_valuation_on_the_same_path_gives_the_same_value"]
 
 
 # stronger than the property (which only asks for a value between the extremes): reported, not claimed
